@@ -23,10 +23,11 @@
       store); it never moves the store HEAD otherwise (no head-side DeleteRange);
     - verifyBifurcating is an input: the list of intermediate headers it promotes
       with setLocalHead, and whether it finally accepts;
-    - setLocalHead is one atomic action, and the sync loop is a separate event
-      (sync_part / sync_done) that runs between other actions: races INSIDE
-      setLocalHead or syncStore.Append against a running sync loop are not
-      represented (they concern the sync-target bookkeeping, C03/C07/C17);
+    - in Parts 1 and 2 setLocalHead is one atomic action and the sync loop is a
+      separate event (sync_part / sync_done) that runs between other actions;
+      Part 3 splits setLocalHead into its two halves (the code holds no lock
+      across them) for the gossip verifier and for networkHead; races inside
+      syncStore.Append belong to C03/C17;
     - a getter answering with a zero header makes the code panic (isRecent /
       verify dereference it): outcome [RPanic]. *)
 From GH Require Import Base.Prelude Model.Verify.
@@ -313,9 +314,15 @@ Definition sync_part (s : sstate) (h : hdr) : sstate :=
   | None => s
   end.
 
+(** one complete run of sync(): the store is below the pending head - it syncs up
+    to it and the range is removed; otherwise (since /repo 77026ec) everything at or
+    below the store head is dropped from pending (ranges.RemoveUpTo): a pending head
+    the store already has does not stay behind as the subjective head *)
 Definition sync_done (s : sstate) : sstate :=
   match s_pend s with
-  | Some pd => if hgt (s_store s) <? h_height pd then SState (Some pd) None (s_now s) else s
+  | Some pd =>
+    if hgt (s_store s) <? h_height pd then SState (Some pd) None (s_now s)
+    else SState (s_store s) None (s_now s)
   | None => s
   end.
 
